@@ -15,6 +15,9 @@ M = {
  "F23": ("agent.go", "REVERT"),
  # F23H2: fix reverted AND the no-op sleep between the context check and loop.Run: detection evidence for F23
  "F23H2": ("agent.go", "REVERT", [("\tif err := ctx.Err(); err != nil {\n\t\treturn err\n\t}\n\n\treturn a.loop.Run(ctx, func(context.Context) {\n\t\tset := a.localCandidates[cand.NetworkType()]", "\tif err := ctx.Err(); err != nil {\n\t\treturn err\n\t}\n\ttime.Sleep(20 * time.Microsecond) // H2: widen the window, semantically a no-op\n\n\treturn a.loop.Run(ctx, func(context.Context) {\n\t\tset := a.localCandidates[cand.NetworkType()]")]),
+ # CTX: seeded/C11-addcandidate-ctx-shadow: the task closure's parameter shadows the cycle's context, the in-task re-check
+ # looks at the loop's context (vacuous).  Caught by component gatherforce only (forced window), see notes/C11.md §12
+ "CTX": ("agent.go", [("if err := a.loop.Run(ctx, func(context.Context) {\n\t\t// The cycle may have been canceled", "if err := a.loop.Run(ctx, func(ctx context.Context) {\n\t\t// The cycle may have been canceled")]),
  "M7": ("agent_handlers.go", [("\t\t\tif len(h.connectionStates) == 0 {\n\t\t\t\th.runningConnectionStates = false\n", "\t\t\tif len(h.connectionStates) <= 1 {\n\t\t\t\th.runningConnectionStates = false\n")]),
 }
 name = sys.argv[1]
